@@ -47,21 +47,22 @@ type Spec struct {
 
 // Outcome is what the child reports for one scenario.
 type Outcome struct {
-	Spec        Spec           `json:"spec"`
-	Events      []string       `json:"events"`
-	Counts      map[string]int `json:"counts"`
-	Dropped     int            `json:"dropped_packets"`
-	CloseMs     float64        `json:"close_ms"`
-	BoundMs     float64        `json:"bound_ms"`
-	Hang        bool           `json:"hang"`
-	HangDump    string         `json:"hang_dump,omitempty"`
-	LeftAfter   []string       `json:"left_after_close"`  // goroutines of the closed object's side after Close (+grace)
-	SockAfter   []string       `json:"sockets_after_close"`
-	LeftFinal   []string       `json:"left_final"` // library goroutines after everything was closed
-	FdFinal     []string       `json:"fd_final"`   // descriptors that were not there before the scenario
-	StreamLate  []string       `json:"stream_late,omitempty"` // target stream: reader sessions not closed in time
-	Panic       string         `json:"panic,omitempty"`
-	SetupErr    string         `json:"setup_err,omitempty"` // the scenario could not be set up (not a verdict)
-	Reached     int            `json:"reached"`             // last protocol step peer 0 completed before the Close
-	Notes       []string       `json:"notes,omitempty"`
+	Spec       Spec           `json:"spec"`
+	Events     []string       `json:"events"`
+	Counts     map[string]int `json:"counts"`
+	Dropped    int            `json:"dropped_packets"`
+	CloseMs    float64        `json:"close_ms"`
+	BoundMs    float64        `json:"bound_ms"`
+	Hang       bool           `json:"hang"`
+	HangDump   string         `json:"hang_dump,omitempty"`
+	BlockedAt  []string       `json:"blocked_at_close_return"` // goroutines of the closed object's side parked at a blocking operation at the instant Close returned
+	LeftAfter  []string       `json:"left_after_close"`        // goroutines of the closed object's side after Close (+grace)
+	SockAfter  []string       `json:"sockets_after_close"`
+	LeftFinal  []string       `json:"left_final"`            // library goroutines after everything was closed
+	FdFinal    []string       `json:"fd_final"`              // descriptors that were not there before the scenario
+	StreamLate []string       `json:"stream_late,omitempty"` // target stream: reader sessions not closed in time
+	Panic      string         `json:"panic,omitempty"`
+	SetupErr   string         `json:"setup_err,omitempty"` // the scenario could not be set up (not a verdict)
+	Reached    int            `json:"reached"`             // last protocol step peer 0 completed before the Close
+	Notes      []string       `json:"notes,omitempty"`
 }
